@@ -4,6 +4,11 @@ Objects live in a dict {path: bytes}.  Per-path fault plans decide what a GET re
   ('ok',)            the whole object
   ('cut', k)         status 200, Content-Length of the WHOLE object, only the first k body bytes, then close
   ('status', code)   an HTTP error status with a short XML body
+  ('raw', cl, body)  status 200, Content-Length cl (None: no Content-Length header at all), exactly `body`, then close:
+                     an object truncated IN THE STORE is ('raw', k, obj[:k]) -- the server honestly announces what it
+                     holds; a transfer cut short is ('raw', len(obj), obj[:k]); any other combination is possible
+PUT requests are answered from `put_plans[path]`, a list of statuses used up one per attempt (then 200); the object
+is stored exactly when the answer is 2xx.  `put_log` records (path, status, number of body bytes) per attempt.
 Unknown paths get 404; a bucket listing (GET /bucket?max-keys=1) answers with one <Contents> element
 unless the bucket is listed in `empty_buckets` / `missing_buckets`.
 """
@@ -19,10 +24,11 @@ class _Handler(http.server.BaseHTTPRequestHandler):
     def log_message(self, *a):
         pass
 
-    def _send(self, status, body, ctype='application/xml', length=None, close=True):
+    def _send(self, status, body, ctype='application/xml', length=None, close=True, no_length=False):
         self.send_response(status)
         self.send_header('Content-Type', ctype)
-        self.send_header('Content-Length', str(len(body) if length is None else length))
+        if not no_length:
+            self.send_header('Content-Length', str(len(body) if length is None else length))
         if close:
             self.send_header('Connection', 'close')
         self.end_headers()
@@ -48,8 +54,17 @@ class _Handler(http.server.BaseHTTPRequestHandler):
             return self._send(200, b'<ListBucketResult><Contents><Key>x</Key></Contents></ListBucketResult>')
         if plan[0] == 'status':
             return self._send(plan[1], b'<Error><Code>Injected</Code></Error>')
+        if plan[0] == 'raw':
+            obj = b''
         if obj is None:
             return self._send(404, b'<Error><Code>NoSuchKey</Code></Error>')
+        if plan[0] == 'raw':
+            self._send(200, plan[2], ctype='application/octet-stream', length=plan[1], no_length=plan[1] is None)
+            try:
+                self.connection.shutdown(socket.SHUT_RDWR)
+            except OSError:
+                pass
+            return
         if plan[0] == 'cut':
             k = plan[1]
             self._send(200, obj[:k], ctype='application/octet-stream', length=len(obj))
@@ -59,6 +74,22 @@ class _Handler(http.server.BaseHTTPRequestHandler):
                 pass
             return
         return self._send(200, obj, ctype='application/octet-stream')
+
+
+    def do_PUT(self):
+        srv = self.server
+        path = urllib.parse.unquote(urllib.parse.urlsplit(self.path).path)
+        n = int(self.headers.get('Content-Length') or 0)
+        body = self.rfile.read(n) if n else b''
+        with srv.lock:
+            seq = srv.put_plans.get(path)
+            status = seq.pop(0) if seq else 200
+            if 200 <= status < 300 and len(path.strip('/').split('/')) > 1:
+                srv.objects[path] = body
+            srv.put_log.append((path, status, len(body)))
+        if status < 200 or status in (204, 304):
+            return self._send(status, b'')
+        return self._send(status, b'<Error><Code>Injected</Code></Error>' if status >= 300 else b'')
 
 
 class FakeS3:
@@ -71,6 +102,8 @@ class FakeS3:
         h.plans = {}
         h.default_plan = ('ok',)
         h.requests = []
+        h.put_plans = {}
+        h.put_log = []
         h.empty_buckets = set()
         h.missing_buckets = set()
         self.port = h.server_address[1]
@@ -88,6 +121,25 @@ class FakeS3:
                 self.httpd.plans.pop(path, None)
             else:
                 self.httpd.plans[path] = plan
+
+    def put_plan(self, path, statuses):
+        with self.httpd.lock:
+            if statuses is None:
+                self.httpd.put_plans.pop(path, None)
+            else:
+                self.httpd.put_plans[path] = list(statuses)
+
+    def get(self, path):
+        with self.httpd.lock:
+            return self.httpd.objects.get(path)
+
+    def remove(self, path):
+        with self.httpd.lock:
+            self.httpd.objects.pop(path, None)
+
+    def attempts(self, path):
+        with self.httpd.lock:
+            return [st for (p, st, _) in self.httpd.put_log if p == path]
 
     def default(self, plan):
         with self.httpd.lock:
